@@ -865,6 +865,27 @@ class Machine:
                         f"op {k}: {c.name}.{nm}={np.asarray(got).tolist()} but its subsystems' coordinates are {e.tolist()}",
                     )
                     return None
+        # system-level data derived from the contributions during assembly (contribution order, all of them)
+        cs = [self.items[i] for i in self.present]
+        exp = {
+            "e_N": np.concatenate([np.atleast_1d(np.asarray(c.e_N, dtype=float)) for c in cs if hasattr(c, "nla_N")] + [np.zeros(0)]),
+            "e_F": np.concatenate([np.atleast_1d(np.asarray(c.e_F, dtype=float)) for c in cs if hasattr(c, "nla_F")] + [np.zeros(0)]),
+        }
+        for nm, e in exp.items():
+            got = np.asarray(getattr(s, nm, np.zeros(0)), dtype=float)
+            if got.shape != e.shape or not np.array_equal(got, e):
+                self.bad("dof_partition", f"System.{nm}", f"op {k}: System.{nm}={got.tolist()} but the contributions' {nm} in registration order are {e.tolist()}")
+                return None
+        reservoir = any(len(i_N) == 0 for c in cs if hasattr(c, "nla_F") for i_N, _, _ in c.friction_laws)
+        if bool(getattr(s, "constant_force_reservoir", False)) != reservoir:
+            self.bad(
+                "dof_partition",
+                "System.constant_force_reservoir",
+                f"op {k}: System.constant_force_reservoir={getattr(s, 'constant_force_reservoir', None)} but {'a' if reservoir else 'no'} contribution has a friction law without normal force (constant force reservoir); friction contributions in order: {[(type(c).__name__, [len(l[0]) for l in c.friction_laws]) for c in cs if hasattr(c, 'nla_F')]}",
+            )
+            return None
+        if reservoir:
+            self.out["probes"]["constant_force_reservoir_present"] += 1
         return own, totals, conn
 
     # ---- evaluation against the dense reference
